@@ -168,6 +168,34 @@ func Nothing(s string) { Rec.note("nothing", s); _ = maybeFail(s) }
 
 func OnlyErr(s string) error { Rec.note("onlyerr", s); return maybeFail(s) }
 
+func CtxAny(ctx context.Context, tag string, v interface{}) string {
+	Rec.note("ctxany", tag, v)
+	return fmt.Sprintf("%s:%v:%v", tag, v == nil, ctx != nil)
+}
+
+func CtxVar(ctx context.Context, n int, rest ...interface{}) int {
+	Rec.note("ctxvar", append([]interface{}{n}, rest...)...)
+	nils := 0
+	for _, r := range rest {
+		if r == nil {
+			nils++
+		}
+	}
+	return n*100 + len(rest)*10 + nils
+}
+
+func CtxMap(ctx context.Context, m map[string]int, v interface{}, p *int) int {
+	Rec.note("ctxmap", m, v, p)
+	k := len(m)
+	if v == nil {
+		k += 1000
+	}
+	if p == nil {
+		k += 10000
+	}
+	return k
+}
+
 var errType = reflect.TypeOf((*error)(nil)).Elem()
 var ctxType = reflect.TypeOf((*context.Context)(nil)).Elem()
 
@@ -196,6 +224,7 @@ var Catalogue = []Fn{
 	mk("noArgs", NoArgs), mk("hello", Hello), mk("add", Add), mk("Scalars", Scalars), mk("structs", Structs), mk("ptrs", Ptrs), mk("slices", Slices),
 	mk("maps", Maps), mk("echo", Echo), mk("join", Join), mk("sum", Sum), mk("any", Any), mk("withCtx", WithCtx), mk("special", Special), mk("multi", Multi),
 	mk("repeat", Repeat), mk("tree", Tree), mk("nothing", Nothing), mk("onlyErr", OnlyErr), mk("名字", Hello), mk("ns_hello", Hello),
+	mk("ctxAny", CtxAny), mk("ctxVar", CtxVar), mk("ctxMap", CtxMap),
 }
 
 // Local invokes the function locally with the given wire arguments. It returns the results (without
